@@ -800,7 +800,122 @@ def bc_dict_pure(check):
         check.ok("BC-DICT-PURE", "%d methods of the discretisation classes" % n, "none writes into a boundary dictionary received from the caller (directly, through a dictionary view, or through a function it calls)")
 
 
+# --------------------------------------------------------------------------- LATE-BINDING
+_LATE_EXAMPLE = """
+table = {}
+for _name, _k in [('a', 1.), ('b', 0.)]:
+    class _gen(object):
+        def __init__(self):
+            self.k = _k
+    table[_name] = _gen
+for _name, _k in [('a', 1.), ('b', 0.)]:
+    class _gen2(object):
+        def __init__(self, k=_k):
+            self.k = k
+    table[_name] = _gen2
+def make(ks):
+    fs = []
+    for k in ks:
+        fs.append(lambda x: x * k)
+    gs = [max(ks, key=lambda x: x * k) for k in ks]
+    for k in ks:
+        fs.append(lambda x, k=k: x * k)
+        fs.append((lambda x: x * k)(2.))
+    return fs
+"""
+_late_ok = None
+
+
+def _bound_names(t):
+    return {n.id for n in ast.walk(t) if isinstance(n, ast.Name)}
+
+
+def _free_reads(fn):
+    """names a def / lambda / class body reads that it does not bind itself (defaults and decorators are evaluated at
+    definition time: they are NOT late)"""
+    if isinstance(fn, ast.ClassDef):
+        out = set()
+        for st in fn.body:
+            if isinstance(st, (ast.FunctionDef, ast.Lambda, ast.ClassDef)):
+                out |= _free_reads(st)
+        return out
+    a = fn.args
+    own = {x.arg for x in a.posonlyargs + a.args + a.kwonlyargs} | ({a.vararg.arg} if a.vararg else set()) | ({a.kwarg.arg} if a.kwarg else set())
+    body = fn.body if isinstance(fn.body, list) else [fn.body]
+    reads = set()
+    for st in body:
+        for n in ast.walk(st):
+            if isinstance(n, ast.Name):
+                if isinstance(n.ctx, ast.Load):
+                    reads.add(n.id)
+                else:
+                    own.add(n.id)
+            elif isinstance(n, ast.arg):
+                own.add(n.arg)
+    return reads - own
+
+
+def _late_sites(tree):
+    """(loop, definition, names) for every def / class / lambda created in a `for` body that reads a loop variable as a FREE
+    name and is kept beyond the iteration (stored in a container / attribute, or appended)"""
+    out = []
+    for loop in ast.walk(tree):
+        if not isinstance(loop, ast.For):
+            continue
+        lv = _bound_names(loop.target)
+        kept = []           # expressions stored beyond the iteration
+        for n in [x for st in loop.body for x in ast.walk(st)]:
+            if isinstance(n, ast.Assign) and any(isinstance(t, (ast.Subscript, ast.Attribute)) for t in n.targets):
+                kept.append(n.value)
+            elif isinstance(n, ast.Call) and isinstance(n.func, ast.Attribute) and n.func.attr in ("append", "add", "insert", "setdefault", "extend", "register"):
+                kept.extend(n.args)
+            elif isinstance(n, ast.Call) and isinstance(n.func, ast.Name) and n.func.id == "setattr":
+                kept.extend(n.args[2:])
+        def direct(e):
+            # the stored object itself, or the elements of a tuple / list / dict display (not something computed from it:
+            # `sorted(v, key=lambda ...)` and `(lambda ...)(x)` use the function within the iteration)
+            if isinstance(e, (ast.Tuple, ast.List, ast.Set)):
+                return [y for x in e.elts for y in direct(x)]
+            if isinstance(e, ast.Dict):
+                return [y for x in e.values for y in direct(x)]
+            return [e]
+        flat = [x for k in kept for x in direct(k)]
+        keptnames = {x.id for x in flat if isinstance(x, ast.Name)}
+        keptlams = {id(x) for x in flat if isinstance(x, ast.Lambda)}
+        for st in loop.body:
+            for n in ast.walk(st):
+                if isinstance(n, (ast.FunctionDef, ast.ClassDef)) and n.name in keptnames or isinstance(n, ast.Lambda) and id(n) in keptlams:
+                    late = _free_reads(n) & lv
+                    if late:
+                        out.append((loop, n, sorted(late)))
+    return out
+
+
+def late_binding(check):
+    """LATE-BINDING: a function / class created in a loop reads the loop variable when it is CALLED, not when it is created: every
+    object kept from the loop sees the value of the LAST iteration (Python closes over variables, not values)"""
+    global _late_ok
+    if _late_ok is None:
+        got = [(getattr(n, "name", "lambda"), names) for loop, n, names in _late_sites(ast.parse(_LATE_EXAMPLE))]
+        if got != [("_gen", ["_k"]), ("lambda", ["k"])]:
+            raise AnalysisError("LATE-BINDING built-in example: got %s" % got)
+        _late_ok = True
+    proj = check.proj
+    mods = [m for m in proj.modules.values() if any(re.fullmatch(mod, m.short) for mod, _, _ in SCOPES.get(check.pid, []))]
+    nloops = 0
+    for m in mods:
+        tree = ast.parse(m.source)
+        nloops += sum(1 for n in ast.walk(tree) if isinstance(n, ast.For))
+        for loop, n, names in _late_sites(tree):
+            what = "class %s" % n.name if isinstance(n, ast.ClassDef) else "function %s" % n.name if isinstance(n, ast.FunctionDef) else "lambda"
+            check.violation("LATE-BINDING", "%s:%d %s" % (m.short, n.lineno, what),
+                            "created in the loop at line %d and kept beyond the iteration, but it reads the loop variable%s %s when it is called: Python binds the NAME, so every object kept from this loop uses the value of the last iteration (pass it as a default argument or build the object in a factory function)" % (loop.lineno, "s" if len(names) > 1 else "", ", ".join(names)),
+                            "%s:%d" % (m.relpath, n.lineno), key="late-%s-%s" % (m.short, getattr(n, "name", "lambda")))
+    check.ok("LATE-BINDING", "modules in the scope of %s" % check.pid, "%d `for` loops in %d modules: no kept function / class reads its loop variable late" % (nloops, len(mods)))
+
+
 def run(check):
+    check.guarded("LATE-BINDING", "scope of %s" % check.pid, lambda: late_binding(check))
     check.guarded("BC-DICT-PURE", "modeldisc", lambda: bc_dict_pure(check))
     check.guarded("CTOR-PARAM", "constructors", lambda: ctor_params(check))
     check.guarded("DTYPE-FOLLOW", "flux kernels", lambda: dtype_rule(check))
